@@ -233,7 +233,12 @@ impl Agg {
             self.states.insert(*s);
         }
         for (k, v) in &o.counters {
-            *self.counters.entry(k.clone()).or_insert(0) += v;
+            let e = self.counters.entry(k.clone()).or_insert(0);
+            if k.starts_with("max.") {
+                *e = (*e).max(*v);
+            } else {
+                *e += v;
+            }
         }
         self.sim_steps += o.sim_steps;
         self.sim_ns += o.sim_ns;
@@ -266,7 +271,13 @@ impl Agg {
         }
         if let Some(o) = v["counters"].as_object() {
             for (k, x) in o {
-                *self.counters.entry(k.clone()).or_insert(0) += x.as_u64().unwrap_or(0);
+                let e = self.counters.entry(k.clone()).or_insert(0);
+                let x = x.as_u64().unwrap_or(0);
+                if k.starts_with("max.") {
+                    *e = (*e).max(x);
+                } else {
+                    *e += x;
+                }
             }
         }
         self.sim_steps += v["sim_steps"].as_u64().unwrap_or(0);
